@@ -131,10 +131,16 @@ def parse_eval(ctx, out, nrows):
 
 
 def report(ctx, o, why, seed, n):
-    small = {k: v for k, v in o.items() if k not in ("output",)}
+    small = {k: v for k, v in o.items() if k not in ("output",) or o.get("kind") == "burst"}
     tag = "case%s" % o["id"] if o.get("kind", "script") == "script" else "%s-%s" % (o["kind"], o["id"])
+    inp = {"kind": o.get("kind", "script"), "id": o["id"], "seed": seed, "n": n}
+    if o.get("kind") == "burst":   # the concrete history: what was put on the link, and when
+        inp.update({"scan": "arp %s, source 10.9.x.3, in-memory link" % o["subnet"], "exit_delay_ms": o["delay"] // MS,
+                    "frames_queued_ms_after_last_probe": o["lead"] // MS,
+                    "frames": "%d x %s (ethernet + %d bytes of ARP, undecodable), then 1 x %s (ARP reply of %s)"
+                              % (o["burst"], o["runt_hex"], o["runt_len"] - 14, o["reply_hex"], o["host"])})
     path = ctx.write_replay("%s-seed%d" % (tag, seed), {
-        "property": "C16", "what": why, "input": {"kind": o.get("kind", "script"), "id": o["id"], "seed": seed, "n": n},
+        "property": "C16", "what": why, "input": inp,
         "observed": small, "replay_cmd": "bin/check C16 --replay <this file>"})
     key = "%s:%s" % (o.get("kind", "script"), o.get("class", ""))
     ctx.findings.append({"key": key, "what": why, "replay": path})
@@ -330,8 +336,44 @@ def cmd_runs(ctx, idxs, delay_ms=700, tag=""):
 def pkt_stage(ctx):
     """Real startScanEngine over the real packet engine on an in-memory link / the real application engine, real plain
     logger; a frame write that fails with ENOBUFS, one output write that fails (ENOSPC, EIO)."""
-    ok, _ = ctx.harness_run("c16", ["-pkt", "-out", "pkt.jsonl"], timeout=120)
+    ok, _ = ctx.harness_run("c16", ["-pkt", "-seed", ctx.seed, "-out", "pkt.jsonl"], timeout=120)
     return ctx.read_jsonl(os.path.join(ctx.work, "pkt.jsonl")) if ok else []
+
+
+def spec_burst(o):
+    """Real startScanEngine over the real packet engine with the real ARP scan method (harness burst.go): once all probes
+    have left, `burst` frames that pass the capture filter but are cut short (the method's decoder rejects them) are put
+    on the link AHEAD of one genuine reply, a few tens of ms after the last probe.  The property, on the run alone: the
+    reply -- on the link >= 150 ms before the exit delay ran out -- is reported, nothing else is, the call does not return
+    before the delay is over, and it returns."""
+    d = o["delay"]
+    head = ("arp scan of %s over the real packet engine (%s, seed %d case %d, exit delay %d ms; %d frames of %d bytes that pass "
+            "the filter `arp` but are cut short (%s) are on the link %d ms after the last probe, AHEAD of the reply of %s)"
+            % (o["subnet"], o["class"], o["seed"], o["id"], d // MS, o["burst"], o["runt_len"], o["runt_hex"],
+               o["lead"] // MS, o["host"]))
+    if not o["returned"]:
+        return head + ": startScanEngine did not return"
+    out = o["output"] or ""
+    if out and not out.endswith("\n"):
+        return head + ": the output ends in the middle of a record: %r" % out[-30:]
+    writes = o["writes"] or []
+    if len(writes) < o["probes"] or o["inject_at"] < 0:
+        return None            # not all probes left: nothing was put on the link (not this property's business)
+    last = max(writes)
+    if o["return_at"] < last + d:
+        return head + ": the scan returned %d ms after the last probe was on the link" % ((o["return_at"] - last) // MS)
+    printed = [ln.split() for ln in out.split("\n") if ln]
+    want = [o["host"], o["host_mac"]]
+    for rec in printed:
+        if rec[:2] != want:
+            return head + ": a record was printed that no frame on the link carried: %r" % " ".join(rec)
+    if o["inject_at"] <= last + d - 150 * MS and want not in [rec[:2] for rec in printed]:
+        return (head + ": the reply, on the link %d ms after the last probe (%d ms before the exit delay ran out), was not "
+                "reported before the scan returned (%d ms after the last probe); %d of the %d undecodable frames had been "
+                "handed to the error log, %d frames were still unread on the link; output %r"
+                % ((o["inject_at"] - last) // MS, (last + d - o["inject_at"]) // MS, (o["return_at"] - last) // MS,
+                   o["errors"], o["burst"], o["left_queued"], out))
+    return None
 
 
 def spec_pkt(o):
@@ -750,7 +792,24 @@ def run(ctx):
         if why and len(ctx.findings) < 3:
             report(ctx, o, why, ctx.seed, n)
     if os.path.exists(os.path.join(verif.HBIN, "c16")):
-        for o in pkt_stage(ctx):
+        prows = pkt_stage(ctx)
+        if not any(o["kind"] == "burst" for o in prows):
+            ctx.broken.append(("correspondence: the undecodable-burst stage produced nothing", ""))
+        for o in prows:
+            if o["kind"] == "burst":
+                judged = (len(o["writes"] or []) >= o["probes"] and o["inject_at"] >= 0
+                          and o["inject_at"] <= max(o["writes"]) + o["delay"] - 150 * MS)
+                if not judged:
+                    ctx.skipped.append("burst case %d: the frames were not on the link in time (inject_at %d)" % (o["id"], o["inject_at"]))
+                ctx.count(o["class"], ("burst", o["id"], o["seed"], o["return_at"]), nontrivial=judged,
+                          sample={"class": o["class"], "delay_ms": o["delay"] // MS, "undecodable_frames": o["burst"],
+                                  "frame_len": o["runt_len"], "on_link_after_last_probe_ms": o["lead"] // MS,
+                                  "errors_logged": o["errors"], "return_ms": o["return_at"] // MS,
+                                  "output": (o["output"] or "")[:60]})
+                why = spec_burst(o)
+                if why and len(ctx.findings) < 3:
+                    report(ctx, o, why, ctx.seed, n)
+                continue
             ctx.count(o["class"], (o["kind"], o["id"], o["return_at"]), nontrivial=True,
                       sample={"class": o["class"], "delay_ms": o["delay"] // MS, "return_ms": o["return_at"] // MS,
                               "output": (o["output"] or "")[:60]})
@@ -863,6 +922,12 @@ def replay(ctx, path):
     i = r["input"]
     if not ctx.harness_build("c16"):
         return 1
+    if i.get("kind") == "burst":
+        ok, out = ctx.harness_run("c16", ["-pkt", "-pktonly", i["id"], "-seed", i["seed"], "-out", "one.jsonl"], timeout=120)
+        got = ctx.read_jsonl(os.path.join(ctx.work, "one.jsonl")) if ok else []
+        why = next((w for w in map(spec_burst, got) if w), None)
+        print("replay burst %s (seed %s): %s" % (i["id"], i["seed"], why or "property holds on this run"))
+        return 1 if why else 0
     if i.get("kind") in ("pkt", "gen"):
         ok, out = ctx.harness_run("c16", ["-pkt", "-pktonly", i["id"], "-out", "one.jsonl"], timeout=120)
         got = ctx.read_jsonl(os.path.join(ctx.work, "one.jsonl")) if ok else []
